@@ -14,7 +14,7 @@ from harness.core import q, z, zlit, coq_list, coq_bool, coq_opt
 PID = "C02"
 GEN_GROUPS = ["Battery", "Ledger", "Evse", "EvseZ"]
 TARGETS = ["coq/Props/C02.vo", "coq/Model/LedgerQ.vo"]
-CASES = {"quick": 256, "thorough": 4000}
+CASES = {"quick": 256, "thorough": 2000}
 SHARD = 16
 CORR_HEADER = ("From Coq Require Import ZArith QArith List String.\n"
                "From ACN Require Import Base.Num Model.EVSE Model.Ledger Model.LedgerQ.\nImport ListNotations.\n"
@@ -374,12 +374,24 @@ def make_case(inp):
                 nontrivial=delivered)
 
 
+def pmap(fn, items, workers=8):
+    """run the real implementation on many inputs in parallel worker processes (inputs are drawn sequentially
+    from the seeded rng by the caller, results keep their order, so a run is reproducible)"""
+    import concurrent.futures
+    import multiprocessing
+    if len(items) < 16:
+        return [fn(x) for x in items]
+    try:
+        ctx = multiprocessing.get_context("fork")
+        with concurrent.futures.ProcessPoolExecutor(max_workers=workers, mp_context=ctx) as ex:
+            return list(ex.map(fn, items, chunksize=4))
+    except (OSError, concurrent.futures.process.BrokenProcessPool):
+        return [fn(x) for x in items]
+
+
 def gen_cases(rng, n, tier):
-    cases = []
-    while len(cases) < n:
-        force = "invalid" if len(cases) == 3 else None
-        cases.append(make_case(gen_history(rng, tier, force)))
-    return cases
+    inputs = [gen_history(rng, tier, "invalid" if k == 3 else None) for k in range(n)]
+    return pmap(make_case, inputs)
 
 
 # ------------------------------------------------------------------------------------------------
